@@ -55,8 +55,32 @@ fn gen_bool_expr(w: &mut World, t: &mut Tape, depth: u32) -> ExprRef {
         };
     }
     let a = gen_bool_expr(w, t, depth - 1);
-    match t.below(7) {
+    match t.below(9) {
         0 => w.ctx.not(a),
+        // every Boolean-typed operator may sit over Boolean (1-bit) operands: comparisons too
+        7 => {
+            let b = gen_bool_expr(w, t, depth - 1);
+            match t.below(4) {
+                0 => w.ctx.greater(a, b),
+                1 => w.ctx.greater_or_equal(a, b),
+                2 => w.ctx.greater_signed(a, b),
+                _ => w.ctx.greater_or_equal_signed(a, b),
+            }
+        }
+        8 => {
+            // 1-bit arithmetic and structure: add/sub are xor, mul is and, slice/concat of one bit
+            let b = gen_bool_expr(w, t, depth - 1);
+            match t.below(4) {
+                0 => w.ctx.add(a, b),
+                1 => w.ctx.sub(a, b),
+                2 => w.ctx.mul(a, b),
+                _ => {
+                    let c = w.ctx.concat(a, b);
+                    let k = t.below(2);
+                    w.ctx.slice(c, k, k)
+                }
+            }
+        }
         1 => {
             let b = gen_bool_expr(w, t, depth - 1);
             w.ctx.and(a, b)
